@@ -405,6 +405,13 @@ func ParseTemplateSource(src []byte, format ast.Format, imported, noParseShow bo
 
 		// StartURL
 		case tokenStartURL:
+			// A URL at the top level of a declarations file is text.
+			if (imported || p.hasExtend) && len(p.ancestors) == 1 {
+				if imported {
+					return nil, nil, syntaxError(tok.pos, "unexpected text in imported file")
+				}
+				return nil, nil, syntaxError(tok.pos, "unexpected text in file with extends")
+			}
 			numTokenInLine++
 			node := ast.NewURL(tok.pos, tok.tag, tok.att, nil)
 			p.addNode(node)
